@@ -146,6 +146,9 @@ class ContractContext:
     # set of visited state ids, to be updated during the invariant testing run
     visited: set[bytes] = field(default_factory=set)
 
+    # depths whose frontier computation was started but not (yet) run to completion
+    incomplete_frontiers: set[int] = field(default_factory=set)
+
     # the function info for the invariant test
     probes_reported: set[FunctionInfo] = field(default_factory=set)
 
